@@ -915,6 +915,15 @@ rv = .false.
                             fmt,
                         )
                     arg_f_names.append(name)
+                    if param.is_function_pointer():
+                        # A callback which takes a callback: the C
+                        # parameter is a function pointer, not a value
+                        # of the inner function's result type.
+                        arg_c_decl.append(
+                            "type(C_FUNPTR), value :: {}".format(name))
+                        self.set_f_module(
+                            modules, "iso_c_binding", "C_FUNPTR")
+                        continue
                     if param.is_array() > 1:
                         # 'int **': same as build_arg_list_interface,
                         # too many pointers are a type(C_PTR).
